@@ -44,9 +44,20 @@ async fn mutual(mut sim: Sim, seed: u64, gated: bool) -> Result<Value, String> {
         hetero: false,
     };
     let keys = sim::sorted_keys(2, &mut sim.rng);
-    for k in keys {
-        sim.add_node(node_cfg(k, &o)).map_err(|e| e.to_string())?;
+    // keep-alive is each side's own business: on both, or on one side only (either one must be
+    // enough to keep the surviving connection up); the cap on connections being established
+    // concerns background dials only
+    let ka_on = sim.rng.gen_range(0..3); // 0: both, 1: the smaller identity only, 2: the greater only
+    let cap = [None, Some(1usize)][sim.rng.gen_range(0..2)];
+    for (i, k) in keys.into_iter().enumerate() {
+        let mut cfg = node_cfg(k, &o);
+        if (ka_on == 1 && i == 1) || (ka_on == 2 && i == 0) {
+            crate::sim::quic(&mut cfg.config).keep_alive_interval_ms = None;
+        }
+        cfg.config.max_concurrent_outstanding_connecting_connections = cap;
+        sim.add_node(cfg).map_err(|e| e.to_string())?;
     }
+    let mut lossy = false;
     sim.subscribe(0).unwrap();
     sim.subscribe(1).unwrap();
     let perm = permutation((seed % 24) as usize, 4);
@@ -59,6 +70,7 @@ async fn mutual(mut sim: Sim, seed: u64, gated: bool) -> Result<Value, String> {
         let mut p = Policy::default();
         p.latency_ms = (1, [1, 3, 10, 40][sim.rng.gen_range(0..4)]);
         p.loss = [0.0, 0.0, 0.05, 0.15][sim.rng.gen_range(0..4)];
+        lossy = p.loss > 0.0;
         p.dup = [0.0, 0.1][sim.rng.gen_range(0..2)];
         p.reorder = [0.0, 0.2][sim.rng.gen_range(0..2)];
         sim.run.fabric.set_policy(p);
@@ -102,7 +114,8 @@ async fn mutual(mut sim: Sim, seed: u64, gated: bool) -> Result<Value, String> {
         let got_i = gate::wait_held(rule_i, 2, 5_000).await;
         if !(got_d && got_i) {
             gate::release_all();
-            return Err(format!("gates not reached: dial {got_d} in {got_i}"));
+            // no loss, nobody in the way: all four connecting tasks of a mutual dial must finish
+            return Err(format!("VIOLATION: the connecting tasks of a loss-free mutual dial did not all finish within 5 s (both dialing tasks finished: {got_d}, both accepting tasks finished: {got_i})"));
         }
         // item k: 0 = node0 out, 1 = node0 in, 2 = node1 out, 3 = node1 in
         for item in perm {
@@ -125,6 +138,11 @@ async fn mutual(mut sim: Sim, seed: u64, gated: bool) -> Result<Value, String> {
         if let Ok(Ok(true)) = tokio::time::timeout(std::time::Duration::from_secs(300), t).await {
             oks += 1;
         }
+    }
+    // without loss both handshakes finish (with a connection limit the admission rule may refuse
+    // the later arrival, which fails that dial)
+    if !lossy && (oks < 1 || (limit.is_none() && oks < 2)) {
+        return Err(format!("VIOLATION: {} of the 2 dials of a loss-free mutual dial failed", 2 - oks));
     }
     // quiet network: fault-free from here on
     sim.run.fabric.set_policy(Policy::default());
